@@ -22,6 +22,7 @@ class FnLower:
         self.rett = 'void'; self.ret_ref = False
         self.fn = None
         self.renames = {}
+        self.dead_vars = set()
         self.loops_closed = 0
         self.caps = {}
 
@@ -331,8 +332,10 @@ class FnLower:
                     val = self.addr(e) if self.ret_ref else self.rv(e)
                     # a prvalue returned by value is constructed in the caller's return slot: the temporary that
                     # stands for it here is not destroyed in this function
-                    if not self.ret_ref and len(self.scopes[-1].dtors) == nd + 1 and re.match(r'^_t\d+$', val or '') and ('(%s)' % val in self.scopes[-1].dtors[-1] or '%s)' % val in self.scopes[-1].dtors[-1]):
-                        self.scopes[-1].dtors.pop()
+                    if not self.ret_ref and re.match(r'^_t\d+$', val or ''):
+                        ds = self.scopes[-1].dtors
+                        mine = [i for i in range(nd, len(ds)) if re.search(r'\(&?\(?%s\)?\)' % re.escape(val), ds[i])]
+                        if len(mine) == 1: ds.pop(mine[0])
             d = self.unwind_to(-1)
             if d and val is not None and not SIMPLE_RE.match(val):
                 t = self.tmp('_ret'); self.emit('%s %s = %s;' % (self.rett, t, val)); val = t
@@ -455,6 +458,18 @@ class FnLower:
         for c in v.get('inner', []):
             if isinstance(c, dict) and c.get('kind') and not c['kind'].endswith('Attr'): init = c
         t = L.tinfo(v['type'])
+        if v.get('constexpr') and init is not None and t[0] == 'builtin' and v.get('storageClass') != 'static':
+            # a constexpr local computed from compile-time facts (type traits, static members): if it cannot be lowered it is
+            # only usable in constant expressions (static_assert, template arguments); a run-time use is an extraction break
+            try:
+                buf, x = self.capture(lambda: self.rv(init))
+            except Unsupported:
+                self.dead_vars.add(v['id'])
+                self.emit('/* constexpr %s: compile-time only */' % name)
+                return
+            self.lines += buf
+            self.emit('%s %s = %s;' % (L.ctype_of(t), name, x))
+            return
         if v.get('storageClass') == 'static':
             g = 'g_%s_%s' % (sanitize(self.fn.get('name', 'fn')), name)
             self.renames[v['id']] = g
@@ -548,7 +563,7 @@ class FnLower:
                 except Unsupported: pass
                 if at is not None and at[0] == 'uptr' and self.is_glvalue(args[0]):
                     src = self.lv(args[0])
-                    self.emit('*(%s) = (%s)%s; %s = 0; /* unique_ptr move */' % (target, L.ctype_of(t), src, src)); return
+                    self.emit('*(%s) = %s; %s = 0; /* unique_ptr move */' % (target, self.uptr_conv(src, at, t), src)); return
                 if at is not None and at[0] == 'uptr':
                     self.construct_into(target, args[0], t); return
                 self.emit('*(%s) = (%s)%s;' % (target, L.ctype_of(t), self.rv(args[0]))); return
@@ -674,9 +689,31 @@ class FnLower:
             except Unsupported: pass
             if at is not None and at[0] == 'uptr' and self.is_glvalue(e):
                 src = self.lv(e)
-                self.emit('*(%s) = (%s)%s; %s = 0; /* unique_ptr move */' % (target, L.ctype_of(t), src, src)); return
+                self.emit('*(%s) = %s; %s = 0; /* unique_ptr move */' % (target, self.uptr_conv(src, at, t), src)); return
+            if at is not None and at[0] == 'uptr':
+                self.emit('*(%s) = %s;' % (target, self.uptr_conv(self.rv(e), at, t))); return
             self.emit('*(%s) = (%s)%s;' % (target, L.ctype_of(t), self.rv(e))); return
         self.emit('*(%s) = %s;' % (target, self.rv(e)))
+
+    def uptr_conv(self, src, from_t, to_t):
+        """C expression converting the raw pointer `src` of unique_ptr type from_t to the pointer type of unique_ptr to_t
+        (derived -> base: the address of the base subobject, which is not the same address for a non-first base)"""
+        L = self.L
+        def rec_of(t):
+            try:
+                p = L.tparse(t[1])
+                while p[0] == 'alias': p = L.tparse(p[1])
+                return p[1] if p[0] == 'rec' else None
+            except Unsupported: return None
+        fr = rec_of(from_t) if from_t is not None and from_t[0] == 'uptr' else None
+        tr = rec_of(to_t)
+        if fr is not None and tr is not None and fr['id'] != tr['id']:
+            path = self.idx.base_path(fr, tr)
+            if path is None: self.unsupported('unique_ptr conversion between unrelated types')
+            if path:
+                if not SIMPLE_RE.match(src): x = self.tmp(); self.emit('%s %s = %s;' % (L.ctype_of(from_t), x, src)); src = x
+                return '(%s ? &(%s)->%s : (%s)0)' % (src, src, '.'.join(path), L.ctype_of(to_t))
+        return '(%s)%s' % (L.ctype_of(to_t), src)
 
     def init_slot(self, lval, ft, it):
         L = self.L
@@ -933,6 +970,28 @@ class FnLower:
             if at[0] == 'refw': self.emit('%s = %s;' % (t, self.rv(args[0])))
             else: self.emit('%s.p = %s;' % (t, self.addr(args[0])))
             return t, False
+        if name == 'make_unique' and ret_t is not None and ret_t[0] == 'uptr':
+            # std::make_unique<T>(args...) = unique_ptr<T>(new T(std::forward<Args>(args)...)): the constructor is chosen among T's
+            # instantiated constructors by arity and parameter types (unique choice, else extraction break)
+            pt = L.tparse(ret_t[1])
+            while pt[0] == 'alias': pt = L.tparse(pt[1])
+            if pt[0] != 'rec': self.unsupported('std::make_unique of %s' % (pt,))
+            rec = pt[1]; ctors = []
+            for m in rec.get('inner', []):
+                cs = [m] if m.get('kind') == 'CXXConstructorDecl' else [x for x in m.get('inner', []) if x.get('kind') == 'CXXConstructorDecl'] if m.get('kind') == 'FunctionTemplateDecl' else []
+                for c in cs:
+                    if self.idx.defn.get(c['id']) is None: continue
+                    ps = [p for p in c.get('inner', []) if p.get('kind') == 'ParmVarDecl']
+                    if len(ps) != len(args): continue
+                    def base(t): return norm(re.sub(r'&+$', '', t.strip()))
+                    if all(base(qt(p['type'])) == base(qt(a['type'])) for p, a in zip(ps, args)): ctors.append(c)
+            if len(ctors) != 1: self.unsupported('std::make_unique<%s>: %d constructors fit the arguments' % (ret_t[1], len(ctors)))
+            ct = L.ctype_of(pt); p = self.tmp('_new')
+            cargs = self.call_args(ctors[0], args)
+            self.emit('%s * %s = (%s *)malloc(sizeof(%s)); /* std::make_unique */' % (ct, p, ct, ct))
+            self.emit('%s(%s);' % (L.need_fn(ctors[0]['id']), ', '.join([p] + cargs)))
+            if L.fn_may_throw(ctors[0]): self.check()
+            return p, False
         if name in ('move', 'forward', 'addressof', 'as_const') and len(args) == 1:
             a = args[0]
             if name == 'addressof': return self.addr(a), False
@@ -1139,10 +1198,13 @@ class FnLower:
                 self.emit('%s %s = %s;' % (L.ctype_of(lt), old, lhs))
                 if rt is not None and rt[0] == 'uptr' and self.is_glvalue(args[1]):
                     src = self.lv(args[1])
-                    self.emit('%s = (%s)%s; %s = 0; /* unique_ptr move-assign */' % (lhs, L.ctype_of(lt), src, src))
+                    self.emit('%s = %s; %s = 0; /* unique_ptr move-assign */' % (lhs, self.uptr_conv(src, rt, lt), src))
                 else:
-                    tmpv = self.materialize(args[1], lt) if rt is not None and rt[0] == 'uptr' else self.rv(args[1])
-                    self.emit('%s = (%s)%s;' % (lhs, L.ctype_of(lt), tmpv))
+                    if rt is not None and rt[0] == 'uptr':
+                        tmpv = self.materialize(args[1], rt)
+                        self.emit('%s = %s; %s = 0;' % (lhs, self.uptr_conv(tmpv, rt, lt), tmpv))
+                    else:
+                        self.emit('%s = (%s)%s;' % (lhs, L.ctype_of(lt), self.rv(args[1])))
                 self.emit('%s(%s);' % (L.need_deleter(lt[1]), old))
                 return '&' + lhs, True
         # generic external function -> stub named after the function and its lowered parameter types
@@ -1189,7 +1251,15 @@ class FnLower:
         tt = L.deref_t(e['type'])
         if tt[0] == 'ptr': tt = L.tparse(tt[1])
         inner = e['inner'][-1]
-        st = L.deref_t(inner['type'])
+        try:
+            st = L.deref_t(inner['type'])
+            if st[0] == 'ptr': st = L.tparse(st[1])
+        except Unsupported:
+            # `new alias(...)` where the alias is local to an instantiation: the allocated type is that of the construct expression
+            ne = self.strip_casts(inner)
+            ce = ne['inner'][-1] if ne.get('kind') == 'CXXNewExpr' and ne.get('inner') else None
+            if ce is None or not (isinstance(ce.get('type'), dict) and ce['type'].get('desugaredQualType')): raise
+            st = L.tparse(ce['type']['desugaredQualType'])
         if st[0] == 'ptr': st = L.tparse(st[1])
         while tt[0] == 'alias': tt = L.tparse(tt[1])
         while st[0] == 'alias': st = L.tparse(st[1])
@@ -1243,7 +1313,7 @@ class FnLower:
                 return 'self->%s' % fld if byref else '&self->%s' % fld
             if rd['id'] in self.refs: return self.vname(rd)
             if rd.get('kind') == 'FunctionDecl': return self.L.need_fn(rd['id'])
-            return '&' + self.vname(rd)
+            return '&' + self.lv(e)
         if k == 'UnaryOperator' and e['opcode'] == '*':
             return self.rv(e['inner'][0])
         if k in CALLS:
@@ -1266,6 +1336,7 @@ class FnLower:
         return d == 0
 
     def vname(self, rd):
+        if rd['id'] in self.dead_vars: self.unsupported('run-time use of the compile-time-only constexpr local %s' % rd.get('name'))
         d = self.idx.by_id.get(rd['id'])
         if d is not None and d.get('_vp_name'): return d['_vp_name']
         return self.renames.get(rd['id'], rd.get('name') or ('_p' + rd['id'][-5:]))
@@ -1291,8 +1362,20 @@ class FnLower:
                     L.stats['externals'].add(g)
                     return g
                 d = self.idx.by_id.get(rd['id'])
-                if d is not None and d.get('kind') == 'VarDecl' and d.get('storageClass') == 'static' and rd['id'] not in self.renames and self.idx.parent.get(rd['id'], {}).get('kind') in REC_KINDS:
+                if d is not None and d.get('kind') == 'VarDecl' and d.get('storageClass') == 'static' and rd['id'] not in self.renames and (self.idx.parent.get(rd['id']) or {}).get('kind') in REC_KINDS:
                     self.unsupported('static data member %s' % rd.get('name'))
+                par = (self.idx.parent.get(rd['id']) or {}) if d is not None else {}
+                if d is not None and d.get('kind') == 'VarDecl' and par.get('kind') in ('NamespaceDecl', 'TranslationUnitDecl', None) and rd['id'] not in self.renames:
+                    # namespace-scope object of the library (e.g. the wildcard `_`): a zero-initialised global, only for objects without state
+                    t = L.deref_t(d['type'])
+                    def stateless(r):
+                        return not self.idx.fields(r) and not self.idx.is_polymorphic(r) and all(br is not None and stateless(br) for b, br in self.idx.bases(r))
+                    if not (t[0] == 'rec' and stateless(t[1])): self.unsupported('namespace-scope variable %s with state' % rd.get('name'))
+                    g = 'vpn_' + sanitize(rd.get('name') or 'anon') + '_' + L.need_rec(t[1])
+                    if g not in L.aux_structs:
+                        L.aux_structs[g] = ('global',)
+                        L.rec_defs.append('struct %s %s; /* namespace-scope object %s */' % (L.need_rec(t[1]), g, rd.get('name')))
+                    return g
                 return self.vname(rd)
             self.unsupported('lvalue reference to ' + str(rd.get('kind')))
         if k == 'MemberExpr':
@@ -1485,14 +1568,23 @@ class FnLower:
             if t[0] == 'model' and not t[1].startswith('struct') and len(args) <= 1:
                 return self.rv(args[0]) if args else '0'       # e.g. std::atomic<bool>{false} -> _Bool
             if (e.get('elidable') or self.is_copy_or_move_ctor(e['ctorType']['qualType'], qt(e['type']))) and len(args) == 1:
+                if t[0] == 'uptr' and self.is_glvalue(args[0]) and not e.get('elidable'):
+                    return self.materialize(e, t)     # unique_ptr move construction: the source is left null
                 if t[0] != 'rec' or self.trivial_copy(t[1]) or e.get('elidable'):
                     a = args[0]
                     return self.lv(a) if self.is_glvalue(a) else self.rv(a)
             return self.materialize(e, t)
         if k == 'CXXNewExpr':
             if e.get('isPlacement') or e.get('isArray'): self.unsupported('placement/array new')
-            t = L.tinfo(e['type'])
-            pt = L.tparse(t[1])
+            # the allocated type: taken from the construct expression where clang gives its desugared type (the type of the
+            # new-expression itself may be spelled with a local alias)
+            ce = e['inner'][-1] if e.get('inner') else None
+            if ce is not None and ce.get('kind') in ('CXXConstructExpr', 'CXXTemporaryObjectExpr') and isinstance(ce.get('type'), dict) and ce['type'].get('desugaredQualType'):
+                pt = L.tparse(ce['type']['desugaredQualType'])
+            else:
+                t = L.tinfo(e['type'])
+                pt = L.tparse(t[1])
+            while pt[0] == 'alias': pt = L.tparse(pt[1])
             ct = L.ctype_of(pt)
             p = self.tmp('_new')
             self.emit('%s * %s = (%s *)malloc(sizeof(%s));' % (ct, p, ct, ct))
